@@ -1,4 +1,4 @@
-\* AS CODED, expected counterexample (Final): tree T4 with ONE restart: until the first Update after a restart the status is not attached, the veto sees LIB 0 and the observer reorganises below its LIB
+\* BEFORE REPAIR b495bde5 (Fixes = {}), counterexample to Final: tree T4 with ONE restart: until the first Update after a restart the status was not attached, the veto saw LIB 0 and the observer reorganised below its LIB
 SPECIFICATION Spec
 CONSTANTS
   N = 4
